@@ -3205,8 +3205,16 @@ cdata_call(CDataObject *cd, PyObject *args, PyObject *kwds)
                     goto error;
             }
         }
-        else if (convert_from_object(data, argtype, obj) < 0)
-            goto error;
+        else {
+            if ((argtype->ct_flags & (CT_STRUCT | CT_UNION)) &&
+                    argtype->ct_size > 0) {
+                /* a partial initializer leaves the other fields zero,
+                   like ffi.new() */
+                memset(data, 0, argtype->ct_size);
+            }
+            if (convert_from_object(data, argtype, obj) < 0)
+                goto error;
+        }
     }
 
     resultdata = buffer + cif_descr->exchange_offset_arg[0];
